@@ -239,6 +239,9 @@ func exploreOpen(di int, d *doc, mi int) {
 // prefixGrid: the numbers of bytes a failing call may deliver before the error.
 // Thorough tier: every n; quick tier: a grid, plus the positions just before, at
 // and after the end of every structural keyword in the requested range.
+// prefixAllN: thorough tier, hand-written documents: every n
+var prefixAllN bool
+
 func prefixGrid(data []byte, off, length int64) []int {
 	avail := 0
 	if off >= 0 && off < int64(len(data)) {
@@ -252,7 +255,7 @@ func prefixGrid(data []byte, off, length int64) []int {
 			res = append(res, n)
 		}
 	}
-	if e.Thorough || avail <= 48 {
+	if (e.Thorough && prefixAllN) || avail <= 48 {
 		for n := 0; n < avail; n++ {
 			add(n)
 		}
@@ -494,12 +497,12 @@ func main() {
 	docs = append(docs, lookaheadDocs()...)
 	nLook := len(docs) - nFixed
 	versions := []pdf.Version{pdf.V1_4, pdf.V1_7, pdf.V2_0, pdf.V1_7, pdf.V1_3, pdf.V1_6}
-	nw := e.Pick(14, 100)
+	nw := e.Pick(14, 70)
 	for i := 0; i < nw; i++ {
 		c := wcfg{
 			v:        versions[i%len(versions)],
 			human:    i%5 == 4,
-			encrypt:  i%3 == 2 && (e.Thorough || i < 6), // AES reads 16 bytes at a time: the costliest documents
+			encrypt:  i%3 == 2 && (i < 6 || (e.Thorough && i < 30)), // AES reads 16 bytes at a time: the costliest documents
 			seekable: i%2 == 1,
 			bigStm:   i%4 == 1 || i%4 == 2,
 			nPages:   1 + i%3,
@@ -533,19 +536,20 @@ func main() {
 			}
 			continue
 		}
+		wi := di - nFixed - nLook // index among the writer-made documents (negative: hand-written)
 		for si, shape := range faultShapes {
 			// the plain sentinel: everything.  The other shapes of the fault error
 			// (wrapping io.EOF / io.ErrUnexpectedEOF, a malformed look-alike, an Is
 			// method claiming io.EOF, a timeout): the one-shot modes `only` and
 			// `half` - in the quick tier on the hand-written documents and the
 			// first writer-made ones
-			if si > 0 && !(e.Thorough || di < nFixed+nLook+1) {
+			if si > 0 && !(wi < 1 || (e.Thorough && wi < 14)) {
 				break
 			}
 			curShape, errInj, activeModes = shape, shape.err, fmodes
 			if si > 0 {
 				activeModes = []fmode{fmOnly, fmHalf}
-				if di >= nFixed+nLook && !e.Thorough {
+				if wi >= 0 && !(e.Thorough && wi < 3) {
 					activeModes = []fmode{fmOnly}
 				}
 			}
@@ -554,11 +558,15 @@ func main() {
 					continue // Report mode differs from Recover only in what is recorded
 				}
 				exploreOpen(di, d, mi)
-				if si == 0 && (mi == 0 || e.Thorough) && (di < nFixed || e.Thorough) && d.bad == "" {
+				// delivered-prefix enumeration: quick - the grid, Recover mode, hand-written
+				// documents; thorough - every n in all modes on the hand-written
+				// documents, the grid in Recover mode on the first writer-made ones
+				if si == 0 && d.bad == "" && ((di < nFixed && (mi == 0 || e.Thorough)) || (e.Thorough && wi >= 0 && wi < 24 && mi == 0)) {
+					prefixAllN = di < nFixed
 					exploreOpenPrefix(di, d, mi)
 				}
 			}
-			exploreOps(di, d, e.Thorough || di < nFixed+nLook+5)
+			exploreOps(di, d, wi < 5 || (e.Thorough && wi < 32))
 			if !strings.Contains(d.class, "objstm") {
 				for mi := range modes {
 					if si > 0 && mi > 0 && !e.Thorough {
@@ -569,7 +577,7 @@ func main() {
 					// Recover mode, from/only in Stop mode; the hand-written and policy
 					// documents get everything
 					saved := activeModes
-					if di >= nFixed+nLook && !e.Thorough && si == 0 {
+					if wi >= 0 && si == 0 && !(e.Thorough && wi < 24) {
 						if mi == 1 {
 							continue
 						}
